@@ -33,6 +33,8 @@ impl Store {
                 match command {
                     StoreCommand::Write(key, value) => {
                         let _ = db.put(&key, &value);
+                        #[cfg(hotstuff_verif)]
+                        verif::observe_write(&key, &value);
                         if let Some(mut senders) = obligations.remove(&key) {
                             while let Some(s) = senders.pop_front() {
                                 let _ = s.send(Ok(value.clone()));
@@ -89,5 +91,31 @@ impl Store {
         receiver
             .await
             .expect("Failed to receive reply to NotifyRead command from store")
+    }
+}
+
+/// Store-write observer used only by the external verification harness.
+#[cfg(hotstuff_verif)]
+pub mod verif {
+    use std::cell::RefCell;
+
+    type Observer = Box<dyn FnMut(&[u8], &[u8])>;
+
+    thread_local! {
+        static OBSERVER: RefCell<Option<Observer>> = RefCell::new(None);
+    }
+
+    pub fn set_write_observer(observer: Option<Observer>) {
+        OBSERVER.with(|o| *o.borrow_mut() = observer);
+    }
+
+    pub(crate) fn observe_write(key: &[u8], value: &[u8]) {
+        OBSERVER.with(|o| {
+            if let Ok(mut guard) = o.try_borrow_mut() {
+                if let Some(f) = guard.as_mut() {
+                    f(key, value);
+                }
+            }
+        });
     }
 }
